@@ -1,0 +1,13 @@
+//go:build verif
+
+package storage
+
+import (
+	"github.com/MixinNetwork/mixin/common"
+	"github.com/MixinNetwork/mixin/crypto"
+)
+
+// VerifComputeRoundHash exposes the startup graph validator's round hash computation.
+func VerifComputeRoundHash(nodeId crypto.Hash, number uint64, snapshots []*common.SnapshotWithTopologicalOrder) (uint64, uint64, crypto.Hash) {
+	return computeRoundHash(nodeId, number, snapshots)
+}
